@@ -103,7 +103,7 @@ static double code_value (int code, int c)
 	if (code <= 0) return 0 ;
 	if (sub == SF_FORMAT_ULAW) return ref_ulaw_decode ((unsigned) (0xFE - k)) ;
 	if (sub == SF_FORMAT_ALAW) return ref_alaw_decode ((unsigned) (k + 1)) ;
-	if (R.type == T_SHORT) return (double) (k << 8) ;
+	if (R.type == T_SHORT || R.type == T_INT) return (double) (k << 8) ;	/* int: this value in the upper half */
 	return (double) k ;
 }
 
@@ -111,6 +111,8 @@ static void fill_frames (void *buf, const int *codes, int nframes)
 {	for (int i = 0 ; i < nframes ; i++)
 		for (int c = 0 ; c < R.ch ; c++)
 			if (R.type == T_SHORT) ((short *) buf) [i * R.ch + c] = (short) code_value (codes [i], c) ;
+			else if (R.type == T_INT) ((int *) buf) [i * R.ch + c] = (int) ((uint32_t) (int) code_value (codes [i], c) << 16) ;
+			else if (R.type == T_DOUBLE) ((double *) buf) [i * R.ch + c] = code_value (codes [i], c) ;
 			else ((float *) buf) [i * R.ch + c] = (float) code_value (codes [i], c) ;
 }
 
@@ -125,6 +127,7 @@ static SNDFILE *open_handle (int mode, SF_INFO *info)
 		INLIB (sf = sf_open_fd (fd, mode, info, SF_FALSE)) ;
 		}
 	if (sf && R.type == T_FLOAT) INLIB (sf_command (sf, SFC_SET_NORM_FLOAT, NULL, SF_FALSE)) ;
+	if (sf && R.type == T_DOUBLE) INLIB (sf_command (sf, SFC_SET_NORM_DOUBLE, NULL, SF_FALSE)) ;
 	return sf ;
 }
 
@@ -149,6 +152,7 @@ static int raw_image (SNDFILE *like, const int *codes, int nframes, unsigned cha
 	sf = md_open (&scratch, SFM_WRITE, &info) ;
 	if (! sf) return 0 ;
 	if (R.type == T_FLOAT) INLIB (sf_command (sf, SFC_SET_NORM_FLOAT, NULL, SF_FALSE)) ;
+	if (R.type == T_DOUBLE) INLIB (sf_command (sf, SFC_SET_NORM_DOUBLE, NULL, SF_FALSE)) ;
 	fill_frames (buf, codes, nframes) ; vl_write (sf, R.type, 1, buf, nframes) ; INLIB (sf_close (sf)) ;
 	if (scratch.len != (sf_count_t) nframes * pk.blockwidth) return 0 ;
 	memcpy (out, scratch.data, scratch.len) ;
@@ -351,12 +355,13 @@ void harness_run (void)
 		int core = (major == SF_FORMAT_WAV || major == SF_FORMAT_AIFF || major == SF_FORMAT_AU || major == SF_FORMAT_RAW) &&
 					(sub == SF_FORMAT_PCM_16 || sub == SF_FORMAT_PCM_24 || sub == SF_FORMAT_FLOAT || sub == SF_FORMAT_ULAW) ;
 		for (int ch = 1 ; ch <= 2 ; ch++)
-			for (int type = 0 ; type <= 2 ; type += 2)
+			for (int type = 0 ; type < T_NTYPES ; type++)
 				for (int route = 0 ; route < 2 ; route++)
 					for (int prepop = 0 ; prepop < 3 ; prepop++)
 					{	int maxdepth ;
 						if (prepop == 2 && ! (core && major == SF_FORMAT_WAV)) continue ;	/* the container that takes SFM_RDWR with a chunk behind the data */
 						if (! rt_accepts (f, ch, 8000)) continue ;
+						if ((type == T_INT || type == T_DOUBLE) && ! (core && major == SF_FORMAT_WAV && sub == SF_FORMAT_PCM_16 && prepop < 2)) continue ;	/* each of the eight typed entries has its own bookkeeping: the int and double ones on one container */
 						if (! core && (ch != 1 || type != T_SHORT || route != (fi & 1))) continue ;	/* non-core formats: one variant, route alternating */
 						if (type == T_FLOAT && (sub == SF_FORMAT_PCM_U8)) continue ;
 						R = (Root) { f, ch, type, route, prepop, sub } ;
